@@ -16,6 +16,11 @@ KINDS = {
 }
 
 
+def hook_flags(script):
+    """scripts with injected faults need the replayer built with the cfg(walrus_verif) hooks"""
+    return '--cfg walrus_verif' if any('fault' in o or 'abort_at_event' in o for o in script['ops']) else ''
+
+
 def concretise(ops, wit, cfg):
     """replay script from the driver's op list and a witness assignment"""
     out = [dict(op='open')]
@@ -131,6 +136,29 @@ def finding_matches(f, res, script):
                 first[o.get('topic', 't')] = o['entries'][0]['len']
         restarts = any(o['op'] in ('reopen', 'restart_process') for o in script['ops'])
         return restarts and any(v > 10485504 for v in first.values())
+    if pred == 'faulted_batch_rotates':
+        # a failed batch whose planning had to seal the current block and allocate a new one
+        UNIT = 10 * 2 ** 20
+        used, limit = {}, {}
+        for o in script['ops']:
+            if o['op'] not in ('append', 'batch_append'):
+                continue
+            t = o.get('topic', 't')
+            u, l = used.get(t, 0), limit.get(t, UNIT)
+            rotated = False
+            for e in o['entries']:
+                need = 256 + e['len']
+                if u + need > l:
+                    rotated = True
+                    l = max(UNIT, -(-need // UNIT) * UNIT)
+                    u = 0
+                u += need
+            if 'fault' in o:
+                if rotated:
+                    return True
+                continue            # the failed batch leaves the offset where it was
+            used[t], limit[t] = u, l
+        return False
     if pred == 'any':
         return True
     return False
@@ -173,7 +201,7 @@ def run(prop, tier, seed, jobs, oracles, budget_s, diff_scripts, bounds, extra_a
                 wit = {('size%d' % i): v for i, v in enumerate(dj['concrete']['sizes'])}
                 wit.update({('budget%d' % i): v for i, v in enumerate(dj['concrete']['budgets'])})
                 script = concretise(ops, wit, dict(backend=dj['backend'], consistency=dj['consistency']))
-                obs, e = replay.run_script(script)
+                obs, e = replay.run_script(script, cfg_flags=hook_flags(script))
                 rep.replays_run += 1
                 v = judge(script, obs, kinds) if not e else None
                 if v:
@@ -188,7 +216,7 @@ def run(prop, tier, seed, jobs, oracles, budget_s, diff_scripts, bounds, extra_a
             wit.update({('budget%d' % i): v for i, v in enumerate(dj['concrete']['budgets'])})
             wit.update({('offset%d' % i): v for i, v in enumerate(dj['concrete'].get('offsets', []))})
             script = concretise(r['ops'], wit, dict(backend=dj['backend'], consistency=dj['consistency']))
-            obs, e = replay.run_script(script)
+            obs, e = replay.run_script(script, cfg_flags=hook_flags(script))
             rep.replays_run += 1
             if e:
                 rep.inconclusive.append(e)
@@ -207,6 +235,9 @@ def run(prop, tier, seed, jobs, oracles, budget_s, diff_scripts, bounds, extra_a
         return rep.finish()
 
     # ---- 2. symbolic exploration
+    import sys as _sys, time as _t
+    _t0 = _t.time()
+    print('[phase] differential done at %.0fs' % (_t0 - rep.t0), file=_sys.stderr)
     agg = runner.explore_jobs('rsym.drivers.stream', 'mk', docs, jobs, cfg, workers, budget_s)
     rep.absorb(agg)
     res = agg['results']
@@ -221,6 +252,7 @@ def run(prop, tier, seed, jobs, oracles, budget_s, diff_scripts, bounds, extra_a
     rep.extra['skeletons'] = sorted({r['job']['skel'] for r in res})
     rep.extra['jobs'] = len(jobs)
 
+    print('[phase] exploration took %.0fs, %d results' % (_t.time() - _t0, len(res)), file=_sys.stderr)
     # ---- 3. replay gate
     findings = runner.load_findings(prop)
     groups = {}
@@ -246,7 +278,7 @@ def run(prop, tier, seed, jobs, oracles, budget_s, diff_scripts, bounds, extra_a
         if fm and all(f['id'] in reported for f in fm):
             continue
         nrep += 1
-        obs, e = replay.run_script(script)
+        obs, e = replay.run_script(script, cfg_flags=hook_flags(script))
         rep.replays_run += 1
         if e:
             rep.inconclusive.append(e)
@@ -268,6 +300,7 @@ def run(prop, tier, seed, jobs, oracles, budget_s, diff_scripts, bounds, extra_a
         rep.violation(path, text)
     # re-demonstrate listed findings that the search did not hit this time is not required; they are only reported when reproduced
 
+    print('[phase] replay gate done at %.0fs' % (_t.time() - rep.t0), file=_sys.stderr)
     # ---- 4. witness replay of passing path classes (model fidelity)
     nw = 6 if tier == 'quick' else 40
     cand = [r for r in oks if r.get('witness') and sum(v for k, v in r['witness'].items() if k.startswith('size')) < 64 * 2 ** 20]
@@ -275,7 +308,7 @@ def run(prop, tier, seed, jobs, oracles, budget_s, diff_scripts, bounds, extra_a
         jcfg = dict(backend=r['job'].get('backend', 'fd'), consistency=r['job'].get('consistency', 'StrictlyAtOnce'),
                     persist_every=r['job'].get('persist_every', 1))
         script = concretise(r['ops'], r['witness'], jcfg)
-        obs, e = replay.run_script(script)
+        obs, e = replay.run_script(script, cfg_flags=hook_flags(script))
         rep.replays_run += 1
         if e:
             rep.inconclusive.append(e)
